@@ -36,6 +36,10 @@ type Net struct {
 	ZoneFail  map[string]bool
 	conns     []*Conn
 	nextPort  int
+	// NextLocalPort, if not 0, is the source port of the next Dial (one shot): a
+	// client re-connecting from the port it used before (SO_REUSEADDR, a NAT
+	// that pins the port)
+	NextLocalPort int
 	Refuse    map[string]bool // addresses refusing connections
 	Blackhole map[string]bool // addresses accepting the dial but never answering
 	Dials     []string        // every dialled address, in order (C18)
@@ -407,11 +411,16 @@ func (n *Net) Dial(addr string, timeout time.Duration) (*Conn, error) {
 		from = nd.Hostname
 	}
 	n.mu.Lock()
-	n.nextPort++
+	lport := n.NextLocalPort
+	n.NextLocalPort = 0
+	if lport == 0 {
+		n.nextPort++
+		lport = n.nextPort
+	}
 	id := len(n.conns)/2 + 1
 	a2b, b2a := newHalf(), newHalf()
 	cli := &Conn{ID: id, net: n, in: b2a, out: a2b, label: fmt.Sprintf("c%d:c2s", id),
-		local: &net.TCPAddr{IP: n.hostIPLocked(from), Port: n.nextPort}, remote: l.addr}
+		local: &net.TCPAddr{IP: n.hostIPLocked(from), Port: lport}, remote: l.addr}
 	srv := &Conn{ID: id, net: n, in: a2b, out: b2a, label: fmt.Sprintf("c%d:s2c", id),
 		local: l.addr, remote: cli.local}
 	cli.peer, srv.peer = srv, cli
